@@ -277,3 +277,198 @@ Proof.
 Qed.
 Lemma payloads_exp_list oack l : payloads (exp_list oack l) = payloads l.
 Proof. destruct oack; reflexivity. Qed.
+
+(* ================= silence: giving up ================= *)
+Lemma client_sends_app a b : client_sends (a ++ b) = client_sends a ++ client_sends b.
+Proof. unfold client_sends. apply flat_map_app. Qed.
+
+Lemma quiet_weaken T T' evs : T' <= T -> quiet_before T evs -> quiet_before T' evs.
+Proof.
+  intros HT H. unfold quiet_before in *. rewrite Forall_forall in *. intros [t a d] Hin Ha.
+  specialize (H _ Hin Ha). lia.
+Qed.
+
+(* no client datagram before the deadline: the wait times out exactly at the deadline; only
+   foreign senders were answered *)
+Lemma await_quiet w Tend : forall evs now dl, now < dl -> dl <= Tend -> quiet_before Tend evs ->
+  exists e' l, await current w now dl evs = (OTimeout, dl, e', l) /\ quiet_before Tend e' /\ client_sends l = [].
+Proof.
+  induction evs as [|[t a d] evs IH]; intros now dl Hn Hd Q; cbn [await]; unfold sock_timeout;
+    destruct (Z.ltb_spec 0 (dl - now)) as [_|Hc]; try lia;
+    replace (now + (dl - now)) with dl by lia.
+  - exists [], [TTimeout dl]. repeat split. constructor.
+  - inversion Q as [|? ? Q1 Q2]; subst.
+    destruct (Z.ltb_spec t dl) as [Hlt|Hge].
+    + destruct (N.eqb_spec a client) as [Ha|Ha]; [specialize (Q1 Ha); lia|]. cbn [negb].
+      destruct (IH (Z.max now t) dl ltac:(lia) Hd Q2) as (e' & l & E & Qe & Cl).
+      rewrite E. exists e', (TRecv t a d :: TSend (Z.max now t) a (PError 5) :: l). repeat split; [exact Qe|].
+      cbn [client_sends flat_map]. destruct (N.eqb_spec a client); [contradiction|]. exact Cl.
+    + exists (Recv t a d :: evs), [TTimeout dl]. repeat split. exact Q.
+Qed.
+
+Section GiveUp.
+  Variable c : cfg.
+  Hypothesis v_cur : v c = current.
+  Hypothesis tm_pos : 0 < tmo c.
+
+  Lemma send_tries_quiet : forall k p w now evs Tend,
+    now + Z.of_nat (S k) * tmo c <= Tend -> quiet_before Tend evs ->
+    exists e' l, send_tries c (S k) p w now evs = (OTimeout, now + Z.of_nat (S k) * tmo c, e', l) /\
+                 client_sends l = map (fun j => (now + Z.of_nat j * tmo c, p)) (seq 0 (S k)).
+  Proof.
+    induction k as [|k IH]; intros p w now evs Tend HT Q; rewrite send_tries_S, v_cur;
+      destruct (await_quiet w Tend evs now (now + tmo c) ltac:(lia) ltac:(nia) Q) as (e1 & l1 & E1 & Q1 & C1);
+      rewrite E1.
+    - cbn [retry_fallthrough current]. exists e1, (TSend now client p :: l1). split; [f_equal; f_equal; f_equal; lia|].
+      cbn [client_sends flat_map seq map]. change (client =? client)%N with true. cbn [app].
+      fold (client_sends l1). rewrite C1. f_equal. f_equal. lia.
+    - destruct (IH p w (now + tmo c) e1 Tend ltac:(nia) Q1) as (e2 & l2 & E2 & C2). rewrite E2.
+      exists e2, (TSend now client p :: l1 ++ l2). split; [f_equal; f_equal; f_equal; lia|].
+      change (TSend now client p :: l1 ++ l2) with ([TSend now client p] ++ l1 ++ l2).
+      rewrite !client_sends_app, C1, C2. cbn [client_sends flat_map app]. change (client =? client)%N with true.
+      cbn [app]. change (seq 0 (S (S k))) with (0%nat :: seq 1 (S k)). rewrite <- seq_shift, map_cons, map_map.
+      f_equal; [f_equal; lia|]. apply map_ext. intros j. f_equal. lia.
+  Qed.
+
+  (* a client that stays silent (or only foreign senders talk) until (retries+1) x timeout: the
+     first packet is sent retries+1 times, at k x timeout, nothing else goes to the client, and
+     the transfer ends with the release of file and socket *)
+  Theorem gives_up oack blocks evs p0 rest :
+    exp_list oack (fst (number_blocks (wrap c) 0%N blocks)) = p0 :: rest ->
+    quiet_before (Z.of_nat (S (retries c)) * tmo c) evs ->
+    fst (transfer_r c oack blocks evs) = inl OTimeout /\
+    client_sends (transfer c oack blocks evs) = map (fun j => (Z.of_nat j * tmo c, p0)) (seq 0 (S (retries c))) /\
+    exists l0, transfer c oack blocks evs = l0 ++ [TCloseFile; TCloseSock].
+  Proof.
+    intros Hp Q. unfold transfer, transfer_r.
+    destruct oack as [|oa1 oar]; cbn [exp_list] in Hp.
+    - destruct blocks as [|b rb]; [discriminate Hp|]. cbn [number_blocks] in Hp.
+      change (next_block (wrap c) 0%N) with (Some 1%N) in Hp. cbv iota beta in Hp.
+      destruct (number_blocks (wrap c) 1%N rb) as [lr orr]. cbn [fst] in Hp. inversion Hp; subst.
+      cbn [send_blocks]. change (next_block (wrap c) 0%N) with (Some 1%N). cbv iota beta.
+      destruct (send_tries_quiet (retries c) (PData 1 b) 1%N 0 evs (Z.of_nat (S (retries c)) * tmo c) ltac:(lia) Q) as (e' & l & E & C).
+      rewrite E. cbn [fst snd finish app]. split; [reflexivity|]. split.
+      + rewrite client_sends_app, C. cbn [client_sends flat_map app]. rewrite app_nil_r. apply map_ext. intros j. f_equal.
+      + exists l. reflexivity.
+    - inversion Hp; subst.
+      destruct (send_tries_quiet (retries c) (POack (oa1 :: oar)) 0%N 0 evs (Z.of_nat (S (retries c)) * tmo c) ltac:(lia) Q) as (e' & l & E & C).
+      rewrite E. cbn [fst snd finish app]. split; [reflexivity|]. split.
+      + rewrite client_sends_app, C. cbn [client_sends flat_map app]. rewrite app_nil_r. apply map_ext. intros j. f_equal.
+      + exists l. reflexivity.
+  Qed.
+End GiveUp.
+
+(* ================= the cooperative client ================= *)
+Lemma classify_ack_bytes n : classify current (ack_bytes n) = CAck n.
+Proof.
+  unfold ack_bytes, classify. change (u16 0 4 =? 4)%N with true. cbv iota. f_equal. unfold u16.
+  rewrite N.mul_comm. symmetry. apply N.div_mod. discriminate.
+Qed.
+
+(* a round in which nothing arrives before the deadline *)
+Lemma await_lost w now dl evs : now < dl ->
+  match evs with [] => True | Recv t _ _ :: _ => dl <= t end ->
+  await current w now dl evs = (OTimeout, dl, evs, [TTimeout dl]).
+Proof.
+  intros Hn H. destruct evs as [|[t a d] evs]; cbn [await]; unfold sock_timeout;
+    destruct (Z.ltb_spec 0 (dl - now)) as [_|Hc]; try lia; replace (now + (dl - now)) with dl by lia.
+  - reflexivity.
+  - destruct (Z.ltb_spec t dl); [lia|reflexivity].
+Qed.
+
+(* the successful round: noise keeps the wait going, the good ACK ends it at its arrival time *)
+Lemma await_good w S tm dlt rest : 0 <= dlt < tm -> forall nzs now, S <= now <= S + dlt ->
+  Forall (noise_ok w dlt) nzs ->
+  exists l, await current w now (S + tm)
+              (map (fun nz => noise_event (S + snd nz) (fst nz)) nzs ++ Recv (S + dlt) client (ack_bytes w) :: rest)
+            = (OAcked, S + dlt, rest, l).
+Proof.
+  intros Hd. induction nzs as [|[x off] nzs IH]; intros now Hn F; cbn [map app await]; unfold sock_timeout;
+    destruct (Z.ltb_spec 0 (S + tm - now)) as [_|Hc]; try lia; replace (now + (S + tm - now)) with (S + tm) by lia.
+  - destruct (Z.ltb_spec (S + dlt) (S + tm)); [|lia]. change (client =? client)%N with true. cbn [negb].
+    rewrite classify_ack_bytes, N.eqb_refl. eexists. f_equal. f_equal. f_equal. lia.
+  - inversion F as [|? ? [Ho Hx] F']; subst. cbn [fst snd] in *.
+    destruct (IH (Z.max now (S + off)) ltac:(lia) F') as [l E].
+    destruct x as [n|a d]; cbn [noise_event await]; unfold sock_timeout;
+      destruct (Z.ltb_spec 0 (S + tm - now)) as [_|Hc']; try lia;
+      replace (now + (S + tm - now)) with (S + tm) by lia;
+      (destruct (Z.ltb_spec (S + off) (S + tm)); [|lia]).
+    + change (client =? client)%N with true. cbn [negb]. rewrite classify_ack_bytes.
+      destruct (N.eqb_spec n w); [contradiction|]. rewrite E. eexists. reflexivity.
+    + destruct (N.eqb_spec a client); [contradiction|]. cbn [negb]. rewrite E. eexists. reflexivity.
+Qed.
+
+Section Coop.
+  Variable c : cfg.
+  Hypothesis v_cur : v c = current.
+  Hypothesis tm_pos : 0 < tmo c.
+
+  Lemma send_tries_coop p dlt nzs rest : 0 <= dlt < tmo c -> Forall (noise_ok (want p) dlt) nzs ->
+    forall lostn k now, (lostn <= k)%nat ->
+    let S := now + Z.of_nat lostn * tmo c in
+    exists l, send_tries c (Datatypes.S k) p (want p) now
+                (map (fun nz => noise_event (S + snd nz) (fst nz)) nzs ++ Recv (S + dlt) client (ack_bytes (want p)) :: rest)
+              = (OAcked, S + dlt, rest, l).
+  Proof.
+    intros Hd F. induction lostn as [|m IH]; intros k now Hk; cbv zeta; rewrite send_tries_S, v_cur.
+    - replace (now + Z.of_nat 0 * tmo c) with now by lia.
+      destruct (await_good (want p) now (tmo c) dlt rest Hd nzs now ltac:(lia) F) as [l E]. rewrite E.
+      eexists. reflexivity.
+    - destruct k as [|k]; [lia|].
+      set (S := now + Z.of_nat (Datatypes.S m) * tmo c).
+      rewrite await_lost; [|lia|].
+      2:{ destruct nzs as [|[x off] nzs]; cbn [map app].
+          - subst S. nia.
+          - inversion F as [|? ? [Ho Hx] F']; subst. cbn [fst snd] in *.
+            assert (now + tmo c <= S + off) by (subst S; rewrite Nat2Z.inj_succ; nia).
+            destruct x; cbn [noise_event]; assumption. }
+      destruct (IH k (now + tmo c) ltac:(lia)) as [l E]. cbv zeta in E.
+      replace (now + tmo c + Z.of_nat m * tmo c) with S in E by (subst S; lia). rewrite E.
+      eexists. reflexivity.
+  Qed.
+
+  Lemma send_blocks_coop : forall blocks blk now plans,
+    length plans = length (fst (number_blocks (wrap c) blk blocks)) ->
+    Forall (plan_ok (tmo c) (retries c)) (combine (fst (number_blocks (wrap c) blk blocks)) plans) ->
+    exists n' l, send_blocks c blk blocks now
+                   (script_of (tmo c) now (combine (fst (number_blocks (wrap c) blk blocks)) plans))
+                 = (inr (if snd (number_blocks (wrap c) blk blocks) then EOverflow else EDone), n', [], l).
+  Proof.
+    induction blocks as [|b rest IH]; intros blk now plans Hl F; cbn [number_blocks send_blocks] in *.
+    - exists now, []. reflexivity.
+    - destruct (next_block (wrap c) blk) as [n|].
+      2:{ exists now, []. reflexivity. }
+      specialize (IH n). destruct (number_blocks (wrap c) n rest) as [lr orr]. cbn [fst snd] in *.
+      destruct plans as [|pl plans]; [discriminate Hl|]. cbn [combine script_of] in *.
+      inversion F as [|? ? (P1 & P2 & P3) F']; subst. cbn [fst snd] in *.
+      destruct (send_tries_coop (PData n b) (delta pl) (noises pl)
+                  (script_of (tmo c) (now + Z.of_nat (lost pl) * tmo c + delta pl) (combine lr plans))
+                  P2 P3 (lost pl) (retries c) now P1) as [l1 E1].
+      cbv zeta in E1. change (want (PData n b)) with n in E1 |- *. rewrite E1.
+      destruct (IH (now + Z.of_nat (lost pl) * tmo c + delta pl) plans ltac:(cbn in Hl; lia) F') as (n2 & l2 & E2).
+      rewrite E2. eexists. eexists. reflexivity.
+  Qed.
+
+  (* every packet is lost at most `retries` times, then acknowledged (with any noise in between):
+     the transfer runs to its end *)
+  Theorem transfer_completes oack blocks plans :
+    let pkts := exp_list oack (fst (number_blocks (wrap c) 0%N blocks)) in
+    length plans = length pkts ->
+    Forall (plan_ok (tmo c) (retries c)) (combine pkts plans) ->
+    fst (transfer_r c oack blocks (script_of (tmo c) 0 (combine pkts plans))) =
+    inr (if snd (number_blocks (wrap c) 0%N blocks) then EOverflow else EDone).
+  Proof.
+    cbv zeta. intros Hl F. unfold transfer_r. destruct oack as [|oa1 oar]; cbn [exp_list] in *.
+    - destruct (send_blocks_coop blocks 0%N 0 plans Hl F) as (n' & l & E). rewrite E. reflexivity.
+    - destruct plans as [|pl plans]; [discriminate Hl|]. cbn [combine script_of] in *.
+      inversion F as [|? ? (P1 & P2 & P3) F']; subst. cbn [fst snd] in *.
+      destruct (send_tries_coop (POack (oa1 :: oar)) (delta pl) (noises pl)
+                  (script_of (tmo c) (0 + Z.of_nat (lost pl) * tmo c + delta pl)
+                     (combine (fst (number_blocks (wrap c) 0%N blocks)) plans))
+                  P2 P3 (lost pl) (retries c) 0 P1) as [l1 E1].
+      cbv zeta in E1. change (want (POack (oa1 :: oar))) with 0%N in E1 |- *. rewrite E1.
+      destruct (send_blocks_coop blocks 0%N (0 + Z.of_nat (lost pl) * tmo c + delta pl) plans
+                  ltac:(cbn in Hl; lia) F') as (n2 & l2 & E2).
+      rewrite E2. reflexivity.
+  Qed.
+End Coop.
